@@ -335,7 +335,7 @@ func init() {
 							}
 						}
 						if g == "edge-glob-dense" || g == "many-globs" || g == "glob-over-many" || g == "triple-glob-boards" || g == "parallel-edges" {
-							n = n / w.Pick(30, 10) // quadratic by nature (n^2 edges / n globs × n targets): sizes 0.3..100 / 1..1000
+							n = n / 30 // quadratic by nature (n^2 edges / n globs × n targets): sizes 1..100 (quick) / 1..333 (thorough); `* -> *` over 1000 objects is 10^6 connections and exceeded the 120 s bound on a loaded machine although it terminates
 							if n < 1 {
 								n = 1
 							}
